@@ -95,6 +95,10 @@ impl DocumentBuilder {
         let reserved = prefix == "xmlns"
             || (prefix != "xml" && namespace_uri == XML_NAMESPACE)
             || namespace_uri == XMLNS_NAMESPACE;
+        // only the default namespace can be undeclared (with xmlns=""): a prefix
+        // cannot be bound to the empty URI
+        // https://www.w3.org/TR/xml-names/#nsc-NoPrefixUndecl
+        let reserved = reserved || (!prefix.is_empty() && prefix != "xml" && namespace_uri.is_empty());
         if reserved {
             let attr_name = if prefix.is_empty() {
                 "xmlns".to_string()
